@@ -51,6 +51,33 @@ TRUSTED = [
 ]
 
 QUIET = io.StringIO()
+
+# Private observation points of the implementation (underscore members, module-level names the harness patches) are
+# OPTIONAL: a behaviour-preserving refactoring may rename them.  When one is missing the public route is used where it
+# exists, otherwise that sub-stream is skipped; what was skipped is recorded here and copied to ctx.notes / ctx.extra.
+MISSING: dict[str, str] = {}
+
+
+def observation_missing(point: str, consequence: str) -> None:
+    MISSING.setdefault(point, f"observation point {point} not available: {consequence}; public behaviour still compared")
+
+
+def report_missing(ctx: Ctx) -> None:
+    for msg in MISSING.values():
+        if msg not in ctx.notes:
+            ctx.notes.append(msg)
+    if MISSING:
+        ctx.extra["observation_points_unavailable"] = sorted(MISSING)
+
+
+def area_epsilon_now() -> float:
+    """the area tolerance in force, through the public accessors."""
+    try:
+        if Rectangle.epsilon_defined():
+            return max(0.0, float(Rectangle.area_epsilon()))
+    except Exception:      # noqa: BLE001
+        observation_missing("Rectangle.epsilon_defined()/area_epsilon()", "reader model run with area tolerance 0")
+    return 0.0
 ZERO = f2hex(0.0)      # area tolerance handed to the netlist reader model (hard rectangles of the producers are exactly disjoint)
 
 
@@ -514,6 +541,30 @@ def build_alloc(inp: dict) -> Allocation:
     return a
 
 
+def alloc_parse_expected(tree1: Any, a2: Allocation | None) -> Any:
+    """what the allocation reader's tree parser makes of a document.  Private route: `_parse_yaml_tree` on a bare
+    object (parser only, like the Lean `readAlloc`); public route: the allocation the full constructor built."""
+    parser = getattr(Allocation, "_parse_yaml_tree", None)
+    if callable(parser):
+        try:
+            probe = Allocation.__new__(Allocation)
+            parser(probe, copy.deepcopy(tree1))
+            cells = getattr(probe, "_allocations", None)
+            if cells is None:
+                cells = probe.allocations
+            return [[list(c.rect.vector_spec), dict(c.alloc), c.depth] for c in cells]
+        except AssertionError:
+            return "err:Assert"
+        except (AttributeError, TypeError):
+            pass
+    observation_missing("Allocation._parse_yaml_tree/_allocations",
+                        "parser-only comparison replaced by the cells of Allocation(document).allocations "
+                        "(skipped for documents the full constructor rejects)")
+    if a2 is None:
+        return None
+    return [[list(c.rect.vector_spec), dict(c.alloc), c.depth] for c in a2.allocations]
+
+
 def run_alloc(ctx: Ctx, inp: dict, batch: Batch) -> Allocation | None:
     Rectangle.undefine_epsilon()
     try:
@@ -573,13 +624,9 @@ def run_alloc(ctx: Ctx, inp: dict, batch: Batch) -> Allocation | None:
             ctx.spec_fail("alloc:rewrite-stable", inp, {"first": s1[:300]}, _size(inp))
     tree1 = load_text(s1)
     batch.add("F alloc_write " + alloc_obj_wire(a), tree1, "alloc_write", inp)
-    try:
-        probe = Allocation.__new__(Allocation)
-        probe._parse_yaml_tree(copy.deepcopy(tree1))
-        exp: Any = [[list(c.rect.vector_spec), dict(c.alloc), c.depth] for c in probe._allocations]
-    except AssertionError:
-        exp = "err:Assert"
-    batch.add("F alloc_read " + enc(tree1), exp, "alloc_read", inp)
+    exp = alloc_parse_expected(tree1, a2)
+    if exp is not None:
+        batch.add("F alloc_read " + enc(tree1), exp, "alloc_read", inp)
     Rectangle.undefine_epsilon()
     return a
 
@@ -742,9 +789,9 @@ def _nl_expected(text_or_tree) -> tuple[Any, float]:
     try:
         with contextlib.redirect_stdout(QUIET):
             n = Netlist(copy.deepcopy(text_or_tree))
-        eps_a = max(0.0, Rectangle._area_epsilon)
+        eps_a = area_epsilon_now()
     except AssertionError:
-        eps_a = max(0.0, Rectangle._area_epsilon)
+        eps_a = area_epsilon_now()
         return "err:Assert", eps_a
     finally:
         Rectangle.undefine_epsilon()
@@ -924,6 +971,19 @@ def rects_tile_polygon(rects: list, p: list) -> str | None:
 FS_EPS = 1e-3
 
 
+def floorset_alpha(fp, inp: dict) -> float | None:
+    """the weight normalisation factor of an instance: private `_alpha`; without it, 1 when no density was asked for."""
+    alpha = getattr(fp, "_alpha", None)
+    if isinstance(alpha, (int, float)):
+        return alpha
+    if not inp["density"]:
+        return 1.0
+    observation_missing("FloorSetInstance._alpha",
+                        "instances converted with a density factor: weights compared with the instance's own nets, "
+                        "model of the converter not run")
+    return None
+
+
 def run_floorset(ctx: Ctx, inp: dict, batch: Batch) -> None:
     Rectangle.undefine_epsilon()
     sz = _size(inp)
@@ -1005,20 +1065,31 @@ def run_floorset(ctx: Ctx, inp: dict, batch: Batch) -> None:
                     if not ok:
                         ctx.spec_fail("floorset:same-terminal", inp, {"module": m["name"], "read": m["rects"], "pin": [px, py]}, sz)
                         break
-        alpha = fp._alpha
-        if not inp["density"] and alpha != 1:
-            ctx.spec_fail("floorset:alpha", inp, {"alpha": alpha}, sz)
-        want = [[[f"M{int(a)}", f"M{int(b)}"], float(w * alpha) if float(w * alpha) > 0 else 1.0] for a, b, w in inp["b2b"]] + \
-               [[[f"T{int(a)}", f"M{int(b)}"], float(w * alpha) if float(w * alpha) > 0 else 1.0] for a, b, w in inp["p2b"]]
-        if sm["nets"] != want:
-            ctx.spec_fail("floorset:same-nets-weights", inp, {"read": sm["nets"], "source": want}, sz)
+        alpha = floorset_alpha(fp, inp)
+        if alpha is not None:
+            if not inp["density"] and alpha != 1:
+                ctx.spec_fail("floorset:alpha", inp, {"alpha": alpha}, sz)
+            want = [[[f"M{int(a)}", f"M{int(b)}"], float(w * alpha) if float(w * alpha) > 0 else 1.0] for a, b, w in inp["b2b"]] + \
+                   [[[f"T{int(a)}", f"M{int(b)}"], float(w * alpha) if float(w * alpha) > 0 else 1.0] for a, b, w in inp["p2b"]]
+            if sm["nets"] != want:
+                ctx.spec_fail("floorset:same-nets-weights", inp, {"read": sm["nets"], "source": want}, sz)
+        else:
+            # the density factor is not observable: the nets of the instance (public) are the source
+            want = [[[str(x) for x in e[0]], float(e[1])] for e in before["nets"]]
+            if sm["nets"] != want:
+                ctx.spec_fail("floorset:same-nets-weights", inp, {"read": sm["nets"], "source": want}, sz)
+            want_members = [[f"M{int(a)}", f"M{int(b)}"] for a, b, _ in inp["b2b"]] + [[f"T{int(a)}", f"M{int(b)}"] for a, b, _ in inp["p2b"]]
+            if [e[0] for e in sm["nets"]] != want_members:
+                ctx.spec_fail("floorset:same-nets", inp, {"read": sm["nets"], "source": want_members}, sz)
     # ---- Lean: the converter as a function of (decomposition, constraints, areas, pins, connections, alpha)
     mods_in = []
     for i in range(len(inp["polys"])):
         kind = 2 if inp["cons"][i][1] else 1 if inp["cons"][i][0] else 0
         mods_in.append([kind, inp["areas"][i], plain(before["modules"][f"M{i}"]["rectangles"])])
-    req = enc([mods_in, inp["pins"], inp["terminals"], float(fp._alpha), inp["b2b"], inp["p2b"]])
-    batch.add("F floorset " + req, [load_text(s1), load_text(d1)], "floorset", inp, "tol")
+    alpha = floorset_alpha(fp, inp)
+    if alpha is not None:
+        req = enc([mods_in, inp["pins"], inp["terminals"], float(alpha), inp["b2b"], inp["p2b"]])
+        batch.add("F floorset " + req, [load_text(s1), load_text(d1)], "floorset", inp, "tol")
     nl_read_request(batch, s1, inp)
     nl_read_request(batch, s2, inp)
 
@@ -1028,7 +1099,12 @@ def run_floorset(ctx: Ctx, inp: dict, batch: Batch) -> None:
 def capture_netlist_text(module):
     """the string-built emitters hand their text straight to `Netlist(...)`; record that text (the document)."""
     texts: list[str] = []
-    real = module.Netlist
+    real = getattr(module, "Netlist", None)
+    if not callable(real):
+        observation_missing(f"{module.__name__}.Netlist", "text of the string-built netlist not captured: text-level "
+                            "sub-stream (text twice, Lean tree model, reader model on the text) skipped")
+        yield texts
+        return
 
     def spy(stream):
         if isinstance(stream, str):
@@ -1098,8 +1174,11 @@ def run_rectio(ctx: Ctx, inp: dict, batch: Batch) -> None:
                     ctx.spec_fail("rectio:same-centre", inp, {"module": m["name"], "read": m["center"], "source": [float(cxs), float(cys)]}, sz)
         if len(texts) == 2 and texts[0] != texts[1]:
             ctx.spec_fail("rectio:twice", inp, {"first": texts[0][:300], "second": texts[1][:300]}, sz)
-        batch.add("F rectio " + alloc_obj_wire(a), load_text(texts[0]), "rectio", inp, "tol")
-        nl_read_request(batch, texts[0], inp)
+        if texts:
+            batch.add("F rectio " + alloc_obj_wire(a), load_text(texts[0]), "rectio", inp, "tol")
+            nl_read_request(batch, texts[0], inp)
+        else:
+            observation_missing("tools.rect.rect_io: text handed to Netlist(...)", "text-level sub-stream of get_netlist skipped")
 
 
 # =============================================================================== producer: rect_io.solution_to_netlist
@@ -1327,6 +1406,9 @@ def run_legal(ctx: Ctx, inp: dict, batch: Batch) -> None:
     mods_in = [[before["names"][i], before["mods"][i][0], before["areas"][i], before["mods"][i][1]] for i in range(len(before["names"]))]
     if len(texts) == 2 and texts[0] != texts[1]:
         ctx.spec_fail("legalfloor:twice", inp, {"first": texts[0][:300], "second": texts[1][:300]}, sz)
+    if not texts:
+        observation_missing("tools.legalfloor.legalfloor: text handed to Netlist(...)", "text-level sub-stream of Model.get_netlist skipped")
+        return
     try:
         tree1 = load_text(texts[0])
     except Exception as e:
@@ -1370,7 +1452,12 @@ def safe(ctx: Ctx, producer: str, inp: dict, batch: "Batch") -> None:
         import traceback
         tb = traceback.extract_tb(e.__traceback__)
         where = [f"{os.path.basename(fr.filename)}:{fr.lineno}:{fr.name}" for fr in tb[-4:]]
-        ctx.spec_fail(f"{producer}:operation-raised", inp, {"raised": repr(e)[:300], "where": where}, _size(inp))
+        if isinstance(e, (AttributeError, TypeError)) and tb and os.path.abspath(tb[-1].filename) == os.path.abspath(__file__):
+            # raised by the harness's own access to an internal of the implementation (renamed / restructured member):
+            # not a behaviour of the implementation
+            observation_missing(f"{producer}: {type(e).__name__} at {where[-1]} ({str(e)[:80]})", "rest of this case skipped")
+        else:
+            ctx.spec_fail(f"{producer}:operation-raised", inp, {"raised": repr(e)[:300], "where": where}, _size(inp))
     finally:
         Rectangle.undefine_epsilon()
 
@@ -1422,6 +1509,7 @@ def run(ctx: Ctx) -> None:
     for _ in range(ctx.n(100, 1500)):
         safe(ctx, "legalfloor", gen_legal(rng), batch)
     batch.flush(ctx)
+    report_missing(ctx)
 
 
 def replay(ctx: Ctx, body: dict) -> None:
@@ -1429,3 +1517,4 @@ def replay(ctx: Ctx, body: dict) -> None:
     batch = Batch()
     safe(ctx, inp["producer"], inp, batch)
     batch.flush(ctx)
+    report_missing(ctx)
